@@ -154,10 +154,14 @@ namespace TAO_PEGTL_NAMESPACE
          if( !in.empty() ) {
             const char c = in.peek_char();
             if( is_digit( c ) ) {
-               in.bump_in_this_line();
                if( c == '0' ) {
-                  return in.empty() || ( !is_digit( in.peek_char() ) );
+                  if( ( in.size( 2 ) < 2 ) || ( !is_digit( in.peek_char( 1 ) ) ) ) {
+                     in.bump_in_this_line();
+                     return true;
+                  }
+                  return false;
                }
+               in.bump_in_this_line();
                while( ( !in.empty() ) && is_digit( in.peek_char() ) ) {
                   in.bump_in_this_line();
                }
@@ -178,8 +182,11 @@ namespace TAO_PEGTL_NAMESPACE
             char c = in.peek_char();
             if( is_digit( c ) ) {
                if( c == '0' ) {
-                  in.bump_in_this_line();
-                  return in.empty() || ( !is_digit( in.peek_char() ) );
+                  if( ( in.size( 2 ) < 2 ) || ( !is_digit( in.peek_char( 1 ) ) ) ) {
+                     in.bump_in_this_line();
+                     return true;
+                  }
+                  return false;
                }
                do {
                   if( !accumulate_digit< Unsigned, Maximum >( st, c ) ) {
